@@ -9,7 +9,7 @@
 From Coq Require Import ZArith List Bool.
 Require Coq.Strings.String.
 Import Coq.Strings.String.StringSyntax.
-Require Import Bits.Lib.Result Bits.Lib.Bytes Bits.Lib.PyStr.
+Require Import Bits.Lib.Result Bits.Lib.Bytes Bits.Lib.PyStr Bits.Spec.Script.
 Require Bits.Gen.Opcodes.
 Import ListNotations.
 Import Coq.Init.Byte.
@@ -17,7 +17,7 @@ Local Open Scope Z_scope.
 Local Open Scope result_scope.
 
 (* ---------- the way callers write a script: opcode names and data ---------- *)
-Inductive item := Op (name : bytes) | Data (d : bytes).
+(* [item] (Spec/Script.v) = Op name | Data bytes *)
 (* the string passed to script(): the name itself / data.hex() *)
 Definition render (it : item) : bytes :=
   match it with Op name => name | Data d => hex_of_bytes d end.
@@ -29,6 +29,15 @@ Definition int_op (v : Z) : result bytes :=
   of_option KeyE (assoc_z v Bits.Gen.Opcodes.int_op_map).
 
 Local Open Scope string_scope.
+(* the alias decode_script prints for the byte of an opcode name (INT_OP_MAP[getattr(constants, name)]) *)
+Definition rep_of (name : bytes) : bytes :=
+  match assoc_b name Bits.Gen.Opcodes.op_int_map with
+  | Some v => match assoc_z v Bits.Gen.Opcodes.int_op_map with Some r => r | None => name end
+  | None => name
+  end.
+Definition canon (it : item) : item :=
+  match it with Op name => Op (rep_of name) | Data d => Data d end.
+
 Definition s_OP_ : bytes := str "OP_".
 Definition s_PUSHDATA1 : bytes := str "OP_PUSHDATA1".
 Definition s_PUSHDATA2 : bytes := str "OP_PUSHDATA2".
